@@ -119,7 +119,10 @@ EndPoints == phase = "done" => \A i \in DOMAIN out :
               /\ (IsFinite(data[i]) /\ RI(data[i]) = lo) => out[i].u = RI(0)
               /\ (IsFinite(data[i]) /\ RI(data[i]) = hi) => out[i].u = RI(1)
 \* the normalised values do not depend on the unit / integer dtype the data are stored in
-Affs == {<<50, -100>>, <<15000, -30000>>, <<60, 0>>, <<15000, 0>>, <<3, 7>>}
+\* <<1024, 0>>: a pure change of unit by a large factor; read backwards (the identity is the image of the data stored in
+\* units 1024 times coarser) it also stands for arbitrarily SMALL data ranges - the replay stores the data scaled by
+\* 2^-30, 2^-44 and 2^40 in float types
+Affs == {<<50, -100>>, <<15000, -30000>>, <<60, 0>>, <<15000, 0>>, <<3, 7>>, <<1024, 0>>}
 AffineInvariant == phase = "done" => \A af \in Affs :
    LET c2 == CfgAff(cfg, af)  lim == Limits(data, c2, af)
    IN \A i \in DOMAIN out : MapL(data[i], lim[1], lim[2], af) = out[i]
